@@ -217,3 +217,18 @@ Definition e_P15 (v : uval) : uval :=
   let h := map getpairs (getL (arg 1 v)) in
   vbool (forallb wf_ann h && P15 (getbytes (arg 0 v)) h (map getbytes (getL (arg 2 v)))).
 Definition e_wf_ann (v : uval) : uval := vbool (wf_ann (getpairs v)).
+
+(* ---- C16 ---- *)
+From PV Require Import Model.Setup Spec.C16.
+Definition getans (v : uval) : N -> option nat :=
+  let l := map (fun p => (getN (arg 0 p), getopt getnat (arg 1 p))) (getL v) in
+  fun k => match find (fun q => N.eqb (fst q) k) l with Some q => snd q | None => None end.
+Definition vres (r : setup_result) : uval :=
+  VL [vbytes (r_errors r); vnat (r_loaded_attempt r); vlist (fun p => VL [vN (fst p); vnat (snd p)]) (r_tx r); vbytes (r_data r)].
+Definition getres (v : uval) : setup_result :=
+  mkRes (getbytes (arg 0 v)) (getnat (arg 1 v)) (map (fun p => (getN (arg 0 p), getnat (arg 1 p))) (getL (arg 2 v))) (getbytes (arg 3 v)).
+(* [mixers_present; answers; retries] *)
+Definition e_timeline (v : uval) : uval := vres (timeline (getbool (arg 0 v)) (getans (arg 1 v)) (getnat (arg 2 v))).
+(* [mixers_present; answers; retries; observed result] *)
+Definition e_P16 (v : uval) : uval :=
+  vbool (P16 (getbool (arg 0 v)) (getans (arg 1 v)) (getnat (arg 2 v)) setup_kinds (getres (arg 3 v))).
